@@ -4,7 +4,7 @@
    the status after an accepted action is the one the rules give, and the result tag always follows
    the status.  A rejected action returns an error value and no new game (the model is a pure function;
    that the library leaves its mutable game untouched is observed by the correspondence run, field unch). *)
-Require Import LC.model.Prims LC.model.Board LC.model.Game LC.spec.Protocol LC.proofs.C12Proofs.
+Require Import LC.model.Prims LC.model.Board LC.model.Game LC.spec.Protocol LC.proofs.C12Proofs LC.proofs.MoveInv LC.proofs.Reach LC.proofs.C11Proofs LC.proofs.C10Total.
 Open Scope N_scope.
 
 Theorem C12_initial : forall b g, game_from_board b = Ok g ->
@@ -28,3 +28,11 @@ Proof. exact game_step_status. Qed.
 (* the result tag is 1-0, 0-1, 1/2-1/2 or ? exactly as the status dictates, after every action sequence *)
 Theorem C12_result_tag : forall K b g l, game_from_board b = Ok g -> g_tag (run K g l) = tag_of_status (g_status (run K g l)).
 Proof. intros K b g l E. apply run_tag. exact (proj1 (game_from_board_spec b g E)). Qed.
+(* the protocol never panics: on a game whose current position satisfies the board invariants (every game built from a
+   constructed position and any actions does) every action returns a game or an error *)
+Theorem C12_never_panics : forall K g a, GameGood K g -> wf_action a -> game_step K g a <> Panic.
+Proof. exact game_step_total. Qed.
+Theorem C12_good_forever : forall K b g acts, Good K b -> game_from_board b = Ok g -> Forall wf_action acts -> GameGood K (run K g acts).
+Proof. intros K b g acts G E W. exact (run_never_panics K acts g (GameGood_init K b g G E) W). Qed.
+Theorem C12_construction_total : forall K b, Good K b -> exists g, game_from_board b = Ok g.
+Proof. exact game_from_board_total. Qed.
